@@ -244,6 +244,8 @@ var Steps = []Step{
 	sti("k.field", "F0", "PH", "$y = &$PH{}", "$y.Fn = $x", dH),
 	st("k.fieldCall", "PH", "S", "$y = $x.Fn()", dH).tag("nilderef"),
 	// global
+	st("g.exchange", "S", "S", "_ = $Pexchange($x)\n$y = $Pexchange(\"c\")", "GX"),
+	st("k.stateful", "S", "S", "acc$i := \"\"\nf$i := func(s string) string {\n\tr := acc$i\n\tacc$i = s\n\treturn r\n}\n_ = f$i($x)\n$y = f$i(\"c\")").flat(),
 	st("g.sc", "S", "S", "$PGS = $x\n$y = $PGS", dGS),
 	st("g.scH", "S", "S", "$PGS = $x\n$y = $PrdGS()", dGS),
 	st("g.fld", "S", "S", "$PGT.F = $x\n$y = $PGT.F", dT, dGT),
@@ -276,7 +278,7 @@ var Steps = []Step{
 type Context string
 
 // Contexts in deviation order; "straight" is the default (no deviation).
-var Contexts = []Context{"straight", "then", "else", "loop", "switch", "helper", "helperOut", "iife", "earlyRet", "deferred", "loopDelayed"}
+var Contexts = []Context{"straight", "then", "else", "loop", "switch", "helper", "helperOut", "iife", "earlyRet", "deferred", "loopDelayed", "doWhile", "doWhileDelayed"}
 
 // SourceForm produces the first carrier.
 type SourceForm struct {
@@ -304,6 +306,7 @@ var Sources = []SourceForm{
 }
 
 func init() {
+	gdecl("GX", "var $PGX string\nfunc $Pstore(x string) { $PGX = x }\nfunc $Pload() string { return $PGX }\nfunc $Pexchange(x string) string {\n\tr := $Pload()\n\t$Pstore(x)\n\treturn r\n}", "$PGX = \"\"")
 	decl("three", "func $Pthree(s string) (string, string, string) { return \"a\", \"b\", s }")
 	decl("four", "func $Pfour(s string) (a, b, c, d string) {\n\td = s\n\treturn\n}")
 	decl("wrap3", "func $Pwrap3(s string) (string, string, string) { return $Pthree(s) }")
@@ -452,6 +455,13 @@ func (r *renderer) renderItem(it Item, i int, x, y string, early string) string 
 		z := fmt.Sprintf("z%d", i)
 		add(decl, init, early, fmt.Sprintf("var %s %s", z, tout), subst(s.Init, x, z, i+100),
 			"for rt.Cond() {", indent(y+" = "+z, 1), indent(subst(s.Move, x, z, i+100), 1), "}")
+	case "doWhile":
+		// single-block loop body that is its own successor
+		add(decl, init, early, "for {", indent(move, 1), "\tif !rt.Cond() {", "\t\tbreak", "\t}", "}")
+	case "doWhileDelayed":
+		z := fmt.Sprintf("z%d", i)
+		add(decl, init, early, fmt.Sprintf("var %s %s", z, tout), subst(s.Init, x, z, i+100),
+			"for {", indent(y+" = "+z, 1), indent(subst(s.Move, x, z, i+100), 1), "\tif !rt.Cond() {", "\t\tbreak", "\t}", "}")
 	case "helper", "earlyRet":
 		h := fmt.Sprintf("$Ph%d", i)
 		body := []string{fmt.Sprintf("func %s(%s %s) %s {", h, "x", tin, tout), "\tvar y " + tout}
